@@ -474,6 +474,21 @@ def _check_native(mode):
                     Ln = embed(np.array(mk(0.7).matrix.tolist(), dtype=complex), qs, n)
                     if Ls.shape != Ln.shape or not np.allclose(Ls, Ln, atol=1e-9):
                         return False, f"symbolic embedding of {mk(th)} on qubits {qs} of {n} differs from the definition after substituting theta"
+        # circuits made ONLY of gates with free symbols (consecutive non-commuting ones, same and different qubits): to_unitary, then substitute
+        a_, b_, c_ = sympy.symbols("a b c")
+        vals = {a_: 0.37, b_: -1.1, c_: 2.3}
+        from orquestra.quantum.circuits import RZ
+        for ops in ([RX(a_)(0), RY(b_)(0)], [RX(a_)(0), RY(b_)(0), RZ(c_)(0), RX(b_)(0)], [RX(a_)(0), RY(b_)(1), XX(c_)(0, 1), RY(a_)(0), RX(c_)(1)],
+                    [XX(a_)(0, 2), RY(b_)(2), RX(c_)(2), CPHASE(a_)(2, 1), RY(c_)(1)]):
+            c = Circuit(ops)
+            Us = np.array(sympy.Matrix(c.to_unitary()).subs(vals).evalf().tolist(), dtype=complex)
+            W = np.eye(2 ** c.n_qubits, dtype=complex)
+            for op in ops:
+                W = embed(np.array(op.gate.bind(vals).matrix.tolist(), dtype=complex), op.qubit_indices, c.n_qubits) @ W
+            Ub = np.array(c.bind(vals).to_unitary(), dtype=complex)
+            if not np.allclose(Us, W, atol=1e-9) or not np.allclose(Ub, W, atol=1e-9):
+                return False, f"all-symbolic circuit {c}: to_unitary (substituted afterwards / bound first) differs from the ordered product " \
+                              f"(deviations {abs(Us - W).max():.3g} / {abs(Ub - W).max():.3g})"
         return True, "ok"
     c = Circuit([H(0), CNOT(0, 2), RX(0.4)(1), SWAP(2, 1), T(0), CNOT(2, 0)], n_qubits=4)
     U = np.array(c.to_unitary(), dtype=complex)
